@@ -13,6 +13,7 @@ TIMINGS = {
     "E": annenv.tcfg(collect=0, initMin=1, initMax=3, reps=3, base=2, cyclic=16, rrMin=0, rrMax=2, annTTL=48),
     "F": annenv.tcfg(collect=1, initMin=0, initMax=2, reps=4, base=2, cyclic=5, rrMin=0, rrMax=0, annTTL=16777215),
     "B0": annenv.tcfg(collect=1, cyclic=4),       # = C06_B of SDConfigs.tla
+    "long": annenv.tcfg(cyclic=0, reps=0, collect=0),     # one offer, then silence: histories that span days
 }
 
 
@@ -43,7 +44,7 @@ class Sids:
         return self.c[k], True
 
 
-def lifecycle_history(rng, n, insts, tc, with_find=True, with_sub=False, ann0=None, allow_stop_twice=True):
+def lifecycle_history(rng, n, insts, tc, with_find=True, with_sub=False, ann0=None, allow_stop_twice=True, find_share=0.3):
     """random start/stop/announce/find(/subscribe) history; returns sched"""
     sids = Sids()
     started = False
@@ -52,13 +53,15 @@ def lifecycle_history(rng, n, insts, tc, with_find=True, with_sub=False, ann0=No
     multi_rr = tc["rrMin"] != tc["rrMax"]
     cl_t = -1
     pool = []
+    # the peers of a history: two IPv4 hosts, or (one history in five) two peers that differ only in their IPv6 scope id
+    peers = ["a4", "a5"] if rng.random() < 0.2 else ["a1", "a2"]
     for (t, j) in positions(rng, n):
         r = rng.random()
         if t == cl_t and r < 0.44:
             r = 0.9      # the connection loss is applied one iteration later: no life-cycle call in that window
         if started and with_find and not with_sub and r < 0.10:
             # several requests from ONE requester whose answers are still pending when the offer is withdrawn
-            src = rng.choice(["a1", "a2"])
+            src = rng.choice(peers)
             for _ in range(rng.choice([2, 2, 3])):
                 mc = rng.random() < 0.6
                 sid, rb = sids.next(src, mc)
@@ -93,11 +96,11 @@ def lifecycle_history(rng, n, insts, tc, with_find=True, with_sub=False, ann0=No
             started = False
             cl_t = t
         else:
-            src = rng.choice(["a1", "a2"])
+            src = rng.choice(peers)
             mc = rng.random() < 0.5
             sid, rb = sids.next(src, mc, reboot=with_sub and rng.random() < 0.12)
             es = []
-            if with_find and (not with_sub or rng.random() < 0.3):
+            if with_find and (not with_sub or rng.random() < find_share):
                 k = 1 if (mc and multi_rr) else rng.choice([1, 1, 2])
                 for _ in range(k):
                     es.append({"ty": "find", "svc": rng.choice(["f1", "f1", "f1x", "f1m", "f1i", "f1v", "f3", "f4", "f4x", "fz"]),
@@ -142,11 +145,11 @@ def run(seed, count, length, insts, variants, monitor_cfg_extra=None, **kw):
         ann0 = insts if rng.random() < 0.7 else insts[:1]
         sched = lifecycle_history(rng, rng.randint(2, length), insts, tc, ann0=ann0,
                                   with_find=kw.get("with_find", True), with_sub=kw.get("with_sub", False),
-                                  allow_stop_twice=kw.get("stop_twice", True))
+                                  allow_stop_twice=kw.get("stop_twice", True), find_share=kw.get("find_share", 0.3))
         rand = [rng.choice([0, 1, 2, 3]) for _ in range(60)]
         ev, missed = annenv.run_schedule(sched, tc, insts, ann0=ann0, rand=list(rand))
         cfg = annenv.mon_cfg(tc, insts, ann0)
-        cfg["dsts"] = ["mc", "a1", "a2", "a3"]
+        cfg["dsts"] = ["mc", "a1", "a2", "a3", "a4", "a5"]
         traces.append({"cfg": cfg, "ev": monpass.add_adv(ev), "sched": sched, "variant": v, "ann0": list(ann0),
                        "rand": rand, "insts": list(insts), "diag": {"variant": v}})
     return traces
@@ -154,15 +157,15 @@ def run(seed, count, length, insts, variants, monitor_cfg_extra=None, **kw):
 
 def rerun(p):
     tc = TIMINGS[p["variant"]]
-    ev, _ = annenv.run_schedule(p["sched"], tc, p["insts"], ann0=p["ann0"], rand=list(p["rand"]))
+    ev, _ = annenv.run_schedule(p["sched"], tc, p["insts"], ann0=p["ann0"], rand=list(p["rand"]), t_extra=p.get("t_extra"))
     cfg = annenv.mon_cfg(tc, p["insts"], p["ann0"])
-    cfg["dsts"] = ["mc", "a1", "a2", "a3"]
+    cfg["dsts"] = ["mc", "a1", "a2", "a3", "a4", "a5"]
     return {"cfg": cfg, "ev": monpass.add_adv(ev), "sched": p["sched"], "variant": p["variant"], "ann0": p["ann0"],
             "rand": p["rand"], "insts": p["insts"], "diag": {"variant": p["variant"]}}
 
 
 def payload(tr):
-    return {k: tr[k] for k in ("sched", "variant", "ann0", "rand", "insts")} | {"trace": tr["ev"]}
+    return {k: tr[k] for k in ("sched", "variant", "ann0", "rand", "insts")} | {"trace": tr["ev"], "t_extra": tr.get("t_extra")}
 
 
 def conform_by_variant(ctx, traces, limit):
@@ -184,7 +187,7 @@ def spec_to_code_ann(ctx, monitor, cfg_expr, inputs_expr, variant, insts, ann0, 
     from .common import spec_to_code
     tc = TIMINGS[variant]
     cfg = annenv.mon_cfg(tc, insts, ann0)
-    cfg["dsts"] = ["mc", "a1", "a2", "a3"]
+    cfg["dsts"] = ["mc", "a1", "a2", "a3", "a4", "a5"]
     consts = {"Inputs": inputs_expr, "Match": "<<>>", "Cfg": cfg_expr, "Sw": "AllOff", "MaxEv": max_ev, "MaxIdle": 3, "MaxPerPoll": 2}
 
     class Replay:
